@@ -29,7 +29,7 @@ impl Check for C03 {
         parse_case_strategy_la(tier_params(tier, GenParams::lr()), true, 10)
     }
     fn cases(&self, tier: Tier) -> u32 {
-        tier.pick(8000, 150000)
+        tier.pick(40000, 600000)
     }
     fn run(&self, case: &ParseCase, st: &mut Stats) -> Verdict {
         let gtext = case.grammar.print();
